@@ -229,7 +229,14 @@ def gen_case(rng):
             ks = sorted({u['k1'] for u in universe})
             keys = [{'k1': k} for k in rng.sample(ks, rng.randint(0, len(ks)))]
         col = rng.choice([p, 'data', 'val'])
-        inputs[p] = {'on': t_on, 'col': col, 'rows': [dict(k, v='%s%s' % (p, ''.join(str(k[c]) for c in t_on))) for k in keys]}
+        vmode = rng.random()
+        def val(k):
+            if vmode < 0.2:
+                return rng.choice(['tie', 'tie', 7, None])        # equal values on several keys, None as a genuine value
+            if vmode < 0.3 and rng.random() < 0.3:
+                return None
+            return '%s%s' % (p, ''.join(str(k[c]) for c in t_on))
+        inputs[p] = {'on': t_on, 'col': col, 'rows': [dict(k, v=val(k)) for k in keys]}
         has_def = p in fdefaults
         if explicit_defaults is not None and (rng.random() < 0.4 or (p in fdefaults and rng.random() < 0.7)):
             explicit_defaults[p] = 'D' + p
